@@ -1404,6 +1404,7 @@ func (vx *Vaxis) openTty(tgts []*os.File) error {
 	go func() {
 		defer func() {
 			if err := recover(); err != nil {
+				vx.drainParser()
 				vx.Close()
 				panic(err)
 			}
@@ -1422,12 +1423,25 @@ func (vx *Vaxis) openTty(tgts []*os.File) error {
 				atomicStore(&vx.resize, true)
 				vx.PostEventBlocking(Redraw{})
 			case <-vx.chSigKill:
+				vx.drainParser()
 				vx.Close()
 				return
 			}
 		}
 	}()
 	return nil
+}
+
+// drainParser consumes the sequences of the current parser until it stops. The
+// input goroutine is the only consumer of the parser: when it is the one which
+// shuts down, nobody takes the sequences the parser already has and the parser
+// could never stop
+func (vx *Vaxis) drainParser() {
+	parser := vx.parser
+	go func() {
+		for range parser.Next() {
+		}
+	}()
 }
 
 // Resume returns the application to it's fullscreen state, re-enters raw mode,
